@@ -265,6 +265,46 @@ func mkT9() func() *c01T9 {
 	}
 }
 
+// an exported field that dials skips and that shadows a field of an embedded struct; a
+// text-unmarshalable struct with exported reference fields
+type C01EmbX struct {
+	X int8
+	Y string
+}
+
+type c01TUrefs struct {
+	List []int16
+	M    map[string]int8
+	P    *int
+}
+
+func (t *c01TUrefs) UnmarshalText(b []byte) error { return nil }
+
+type c01T10 struct {
+	C01EmbX
+	X  int32 `dials:"-"`
+	TU c01TUrefs
+	N  int8
+}
+
+func mkT10() func() *c01T10 {
+	x, ox, n := zzverif.Int8("dX"), zzverif.Int32("dOuterX"), zzverif.Int8("dN")
+	refs := zzverif.Choose("dRefs", 2)
+	pv := zzverif.Int("dP")
+	return func() *c01T10 {
+		c := c01T10{C01EmbX: C01EmbX{X: x, Y: "y"}, X: ox, N: n}
+		if refs == 1 {
+			p := pv
+			c.TU = c01TUrefs{List: []int16{1, 2}, M: map[string]int8{"k": 3}, P: &p}
+		}
+		return &c
+	}
+}
+
+func HarnessC01T10() {
+	c01run("T10 skipped field shadowing an embedded field / text-unmarshalable struct with reference fields", mkT10(), 1)
+}
+
 func HarnessC01T9() { c01run("T9 maps of maps with shared inner maps / unmanaged exported reference fields", mkT9(), 1) }
 
 func HarnessC01T8() { c01run("T8 arrays in slices / struct keys / all-nilable pointee", mkT8(), 1) }
